@@ -192,11 +192,120 @@ def stuck_detail(s, fv):
             "held_in_fanout": bool(v.get("branch_metadata")), "volatile": v, "crashes": s.crashes}
 
 
+OPEN_SWITCH = {"C04-F1": "F1", "C04-F2": "F2", "C04-F4": "F4"}          # finding -> switch of AslModel/Crash.lean (Quirks)
+# (findings/C04.json names the switch of each open finding in `model_switch`; this table is the default)
+
+
+def switch_of(f):
+    import crashmodel as cm
+    short = {v: k for k, v in cm.SWITCH.items()}
+    return short.get(f.get("model_switch")) or OPEN_SWITCH.get(f.get("id"))
+LEGACY = {"C04-F1": "redelivered-task-never-requested", "C04-F2": "branch-reply-consumed-before-crash",
+          "C04-F4": "nested-join-result-volatile"}
+
+
+def classify_by_model(f, case, impl, model):
+    """A stuck run is the known finding `f` exactly when the protocol model (lean/AslModel/Crash.lean) with the switches
+    of all open findings on reproduces what the engine did, and with `f`'s switch off it does not (`explained_by`, computed
+    in `settle`).  Scenarios outside the model's skeletons (synchronous children, fan-outs whose failure is handled …) fall
+    back on the hand-written classifier."""
+    if isinstance(impl, dict) and "explained_by" in impl:
+        return f.get("id") in impl["explained_by"]
+    if isinstance(impl, dict) and impl.get("model") == "unsupported":
+        return classify(dict(f, classifier=LEGACY.get(f.get("id"), f.get("classifier"))), case, impl, model)
+    return False
+
+
+class ModelSide(object):
+    """collects, for every crash run, the model queries; asks the driver once; reports afterwards"""
+
+    def __init__(self, chk):
+        self.chk = chk
+        self.switch = {f["id"]: switch_of(f) for f in chk.open_findings if switch_of(f)}
+        self.open = sorted(set(self.switch.values()))
+        self.runs = []
+
+    def add(self, case, between, skel, sched, eo, diverged, problem):
+        """`problem`: None or (kind, impl, model, law) — an engine-side law the run broke"""
+        self.runs.append({"case": case, "between": between, "skel": skel, "sched": sched, "eo": eo, "diverged": diverged,
+                          "problem": problem})
+
+    def settle(self):
+        import crashmodel as cm
+        chk = self.chk
+        lines, owners = [], []
+        for i, r in enumerate(self.runs):
+            if r["skel"] is None or r["sched"] is None or r["diverged"]:
+                continue
+            variants = [self.open]
+            if r["problem"] is not None:
+                variants += [[x for x in self.open if x != sw] for sw in self.open]
+            for v in variants:
+                lines.append(cm.line(v, r["skel"], r["sched"]))
+                owners.append((i, tuple(v)))
+        answers = {}
+        for (i, v), a in zip(owners, common.driver(lines, shards=8)):
+            parts = a.split("\t")
+            answers[(i, v)] = json.loads(parts[1]) if parts[0] == "ok" else None
+        for i, r in enumerate(self.runs):
+            case, prob = r["case"], r["problem"]
+            if r["skel"] is None:
+                chk.dist("model.unsupported_scenario")
+            elif r["sched"] is None:
+                chk.dist("model.no_schedule")
+            elif r["diverged"]:
+                chk.dist("model.path_diverged")
+            supported = r["skel"] is not None and r["sched"] is not None and not r["diverged"]
+            if not supported:
+                if prob is not None:
+                    kind, impl, model, law = prob
+                    if isinstance(impl, dict):
+                        impl = dict(impl, model="unsupported")
+                        chk.dist("classified.by_fallback")
+                    chk.report(kind, case, impl=impl, model=model, law=law, classify=classify_by_model)
+                continue
+            ev = cm.engine_view(r["eo"], r["between"])
+            m_all = answers.get((i, tuple(self.open)))
+            if m_all is None or not m_all.get("sync"):
+                chk.dist("model.out_of_sync")
+                chk.report("impl-differs-from-spec", case, impl={"engine": ev, "schedule": r["sched"][-6:]}, model=m_all,
+                           law="the engine's handler invocations are operations the crash protocol model has enabled")
+                continue
+            mv = cm.view(m_all, r["between"])
+            agree = cj(mv) == cj(ev)
+            chk.dist("model.%s.%s" % ("agree" if agree else "DISAGREE", "complete" if ev["terminal"] else "stuck"))
+            if not agree:
+                chk.report("impl-differs-from-spec", case, impl={"engine": ev, "skeleton": r["skel"], "schedule": r["sched"][-8:]},
+                           model={"switches": self.open, "predicts": mv},
+                           law="the crash protocol model (AslModel/Crash.lean) with the open findings' switches on predicts whether "
+                               "the execution ends, what it is left waiting for, and (crash between handlers) that no request is "
+                               "sent twice and one terminal notification")
+                continue
+            if prob is not None:
+                kind, impl, model, law = prob
+                explained = []
+                for f, sw in sorted(self.switch.items()):
+                    if sw in self.open:
+                        m_wo = answers.get((i, tuple(x for x in self.open if x != sw)))
+                        # (a model that cannot even follow the engine's handler invocations does not reproduce the run)
+                        if m_wo is None or not m_wo.get("sync") or cj(cm.view(m_wo, r["between"])) != cj(ev):
+                            explained.append(f)
+                if isinstance(impl, dict):
+                    impl = dict(impl, explained_by=explained, model_predicts=mv)
+                else:
+                    impl = {"observed": impl, "explained_by": explained, "model_predicts": mv}
+                for f in explained:
+                    chk.dist("stuck.explained_by.%s" % f)
+                chk.report(kind, case, impl=impl, model=model, law=law, classify=classify_by_model)
+
+
 def run(chk):
+    import crashmodel as cm
     quick = chk.tier == "quick"
     chk.lean_stage()
     scns = scenarios(thorough=not quick)
     n_between = n_mid = 0
+    side = ModelSide(chk)
     for scn in scns:
         for share in (True, False):
             # reference run
@@ -205,6 +314,14 @@ def run(chk):
             ref, ref_reqs, _ = observe(s, ea)
             ref_trace = list(s.trace)
             ops = s.broker.op_count.get("conn1", 0)
+            ref_hist = s.history(ea)
+            try:
+                skel = cm.skeleton(scn.machine, s.broker.log, ref.get("status") == "FAILED")
+            except cm.Unsupported as e:
+                skel = None
+                chk.dist("skeleton.unsupported")
+            else:
+                chk.dist("skeleton.extracted")
             s.close()
             if ref.get("status") not in ("SUCCEEDED", "FAILED"):
                 raise common.InfraError("reference run of %s did not terminate" % scn.name)
@@ -213,12 +330,13 @@ def run(chk):
             # --- crash between two handler invocations
             for i in range(1, term_at):
                 s, ea = start(scn, share)
+                lab = cm.Labeller(s)
                 for st in ref_trace[:i]:
-                    s.do(st)
+                    lab.do(st)
                 if explore.terminal_seen(s, ea):
                     s.close()
                     break
-                s.do(("crash", 0))
+                lab.do(("crash", 0))
                 s.do(("restart", 0))
                 finish(s, ea)
                 fv, reqs, terms = observe(s, ea)
@@ -227,17 +345,26 @@ def run(chk):
                         "crash": {"kind": "between-handlers", "after_step": i, "prefix": [list(x) for x in ref_trace[:i]]}}
                 chk.count(cj([scn.name, store, "between", i]), True)
                 chk.dist("crash.between_handlers")
+                problem = None
+                detail = None
                 if s.errors:
                     chk.report("impl-violates-law", case, impl={"errors": s.errors[:1]}, law="no exception escapes after a restart")
                 elif cj(undated(fv, share)) != cj(undated(ref, share)):
-                    chk.report("impl-violates-law", case, impl=stuck_detail(s, fv), model=ref, classify=classify,
-                               law="a crash between two event handlings does not change the terminal status and output")
+                    detail = stuck_detail(s, fv)
+                    problem = ("impl-violates-law", detail, ref,
+                               "a crash between two event handlings does not change the terminal status and output")
                 elif any(v > 1 for v in reqs.values()):
-                    chk.report("impl-violates-law", case, impl={"requests_per_correlation_id": reqs},
-                               law="a task whose request was already sent is not requested again after the restart")
+                    problem = ("impl-violates-law", {"requests_per_correlation_id": reqs}, None,
+                               "a task whose request was already sent is not requested again after the restart")
                 elif len(terms) != 1:
-                    chk.report("impl-violates-law", case, impl={"terminal_notifications": terms},
-                               law="exactly one terminal notification also across a restart between handlers")
+                    problem = ("impl-violates-law", {"terminal_notifications": terms}, None,
+                               "exactly one terminal notification also across a restart between handlers")
+                if not s.errors:
+                    if detail is None and fv.get("status") not in ("SUCCEEDED", "FAILED"):
+                        detail = stuck_detail(s, fv)
+                    side.add(case, True, skel, lab.schedule() if skel is not None else None,
+                             cm.engine_observation(s, ea, fv, terms, reqs, detail),
+                             skel is not None and cm.path_diverged(skel, ref_hist, s.history(ea)), problem)
                 if len(chk.cov["samples"]) < 3 and i == term_at // 2:
                     chk.sample({"scenario": scn.name, "store": store, "crash_after_step": i, "final": fv, "reference": ref})
                 s.close()
@@ -246,8 +373,10 @@ def run(chk):
             for n in step_ops:
                 for second in ([None] if quick else [None, 2]):
                     s, ea = start(scn, share)
+                    lab = cm.Labeller(s)
                     s.broker.crash_plan = ("conn1", n)
                     armed2 = False
+                    crashes_wanted = 2 if second else 1
                     g = None
                     while s.steps < 1500:
                         if not s.instances[0].alive:
@@ -264,22 +393,35 @@ def run(chk):
                         st = s.canonical_step()
                         if st is None:
                             break
-                        s.do(st)
+                        # the handler invocations up to the last crash are the schedule the model is given
+                        if len(s.crashes) < crashes_wanted:
+                            lab.do(st)
+                        else:
+                            s.do(st)
                     fv, reqs, terms = observe(s, ea)
                     n_mid += 1
                     case = {"scenario": scn.name, "machine": scn.machine, "input": scn.data, "plans": scn.plans, "store": store,
                             "crash": {"kind": "after-broker-operation", "n": n, "second": second}}
                     chk.count(cj([scn.name, store, "mid", n, second]), True)
                     chk.dist("crash.after_broker_op" + (".repeated" if second else ""))
+                    problem = None
+                    detail = None
                     if s.errors:
                         chk.report("impl-violates-law", case, impl={"errors": s.errors[:1]}, law="no exception escapes after a restart")
                     elif fv.get("status") not in ("SUCCEEDED", "FAILED"):
-                        chk.report("impl-violates-law", case, impl=stuck_detail(s, fv), classify=classify,
-                                   law="no started execution is silently lost: it still reaches a terminal status after a crash at any broker operation")
+                        detail = stuck_detail(s, fv)
+                        problem = ("impl-violates-law", detail, None,
+                                   "no started execution is silently lost: it still reaches a terminal status after a crash at any broker operation")
                     elif fv.get("status") != ref.get("status"):
-                        chk.report("impl-violates-law", case, impl=fv, model=ref,
-                                   law="the terminal status is that of the crash-free run (duplicates of non-terminal effects are allowed)")
+                        problem = ("impl-violates-law", fv, ref,
+                                   "the terminal status is that of the crash-free run (duplicates of non-terminal effects are allowed)")
+                    if not s.errors:
+                        sched = lab.schedule() if skel is not None else None
+                        side.add(case, False, skel, cm.upto_last_crash(sched) if sched is not None else None,
+                                 cm.engine_observation(s, ea, fv, terms, reqs, detail),
+                                 skel is not None and cm.path_diverged(skel, ref_hist, s.history(ea)), problem)
                     s.close()
+    side.settle()
     chk.cov["streams"]["between_handler_crash_points"] = n_between
     chk.cov["streams"]["broker_operation_crash_points"] = n_mid
     chk.cov["rule"] = ("8 scenarios (Task+Wait, two Tasks, Retry, Catch->Fail, Choice+Wait, Parallel success, Map with MaxConcurrency, "
@@ -287,7 +429,13 @@ def run(chk):
                        "configuration)} x every crash point between two handler invocations of the canonical run (same status/output, "
                        "<= 1 request per correlation id, one terminal notification) and every%s crash point after an individual "
                        "publish/ack of the engine connection (terminal status still reached and equal)%s; restart = new engine objects, "
-                       "same instance id, broker redelivers what was unacknowledged; distinct = distinct (scenario, store, crash point)"
+                       "same instance id, broker redelivers what was unacknowledged; distinct = distinct (scenario, store, crash point); "
+                       "every crash run is also given to the crash protocol model (lean/AslModel/Crash.lean): the skeleton of the "
+                       "execution from the events the crash-free run published, the schedule from the run's handler invocations "
+                       "(events by publication ordinal, the crash as an operation or as a cut after the k-th publish/ack of a "
+                       "handler); with the switches of the open findings on the model must predict whether the execution ends and "
+                       "what it is left waiting for (model.* in the distribution); a stuck run is the known finding f exactly when "
+                       "the model reproduces it with f's switch on and not with it off"
                        % (" (every 2nd when > 40)" if quick else "", "" if quick else " incl. a second crash 2 operations after the restart"))
     chk.cov["exhaustive"] = not quick
 
@@ -295,19 +443,47 @@ def run(chk):
 def replay(chk, path):
     with open(path) as f:
         rp = json.load(f)
+    import crashmodel as cm
     c = rp["case"]
     scn = [x for x in scenarios(thorough=True) if x.name == c["scenario"]][0]
-    s, ea = start(scn, c["store"] == "shared-store")
+    share = c["store"] == "shared-store"
+    s, ea = start(scn, share)
+    finish(s, ea)
+    ref, _, _ = observe(s, ea)
+    try:
+        skel = cm.skeleton(scn.machine, s.broker.log, ref.get("status") == "FAILED")
+    except cm.Unsupported as e:
+        skel = None
+        print("skeleton: unsupported (%s)" % e)
+    s.close()
+    s, ea = start(scn, share)
+    lab = cm.Labeller(s)
     cr = c["crash"]
     if cr["kind"] == "between-handlers":
         for st in cr["prefix"]:
-            s.do(tuple(st))
-        s.do(("crash", 0))
+            lab.do(tuple(st))
+        lab.do(("crash", 0))
         s.do(("restart", 0))
         finish(s, ea)
+        sched = lab.schedule()
     else:
+        # (the first crash only: a second one, `second`, is part of the run of the check, not of this replay)
         s.broker.crash_plan = ("conn1", cr["n"])
+        while s.steps < 1500 and not s.crashes:
+            st = s.canonical_step()
+            if st is None:
+                break
+            lab.do(st)
+        sched = lab.schedule()
+        sched = cm.upto_last_crash(sched) if sched is not None else None
         finish(s, ea)
+    if skel is not None and sched is not None:
+        chk.lean_stage()
+        opened = sorted(set(switch_of(f) for f in chk.open_findings if switch_of(f)))
+        for sw in [opened, []]:
+            print("model %s:" % (",".join(sw) or "no switch"), common.driver([cm.line(sw, skel, sched)])[0])
+        print("skeleton:", cj(skel))
+        print("schedule:", cj(sched))
     print("final:", cj(explore.final_view(s, ea)), "crashes:", s.crashes, "errors:", s.errors[:1])
     print("requests:", [(q["t"], q["queue"], q["correlation_id"][-4:]) for q in s.rpc_requests])
     print("volatile:", s.snapshot_volatile())
